@@ -187,9 +187,12 @@ public:
     }
 
     // add padding dimensions
+    //the extrapolated tables are only needed until their coefficients have been copied
+    std::unique_ptr<splinetable<Alloc>> lowerPadding, upperPadding;
     {
-      auto extrapolateSpline=[](const splinetable<Alloc>* s1, const splinetable<Alloc>* s2)->splinetable<Alloc>*{
-        splinetable<Alloc>* snew = new splinetable<Alloc>();
+      auto extrapolateSpline=[](const splinetable<Alloc>* s1, const splinetable<Alloc>* s2)->std::unique_ptr<splinetable<Alloc>>{
+        std::unique_ptr<splinetable<Alloc>> owner(new splinetable<Alloc>());
+        splinetable<Alloc>* snew = owner.get();
 
         snew->ndim = s2->ndim;
 
@@ -200,6 +203,7 @@ public:
         std::copy_n(s2->nknots,s2->ndim,snew->nknots);
 
         snew->knots = snew->allocate<double_ptr>(s2->ndim);
+        std::fill_n(snew->knots,s2->ndim,nullptr);
         for(unsigned int i=0; i<s2->ndim; i++){
           snew->knots[i] = snew->allocate<double>(s2->nknots[i]+2*s2->order[i]) + s2->order[i];
           std::copy_n(s2->knots[i],s2->nknots[i],snew->knots[i]);
@@ -212,6 +216,7 @@ public:
         std::copy_n(s2->strides,s2->ndim,snew->strides);
 
         snew->extents = snew->allocate<double_ptr>(s2->ndim);
+        std::fill_n(snew->extents,s2->ndim,nullptr);
         snew->extents[0] = snew->allocate<double>(2*s2->ndim);
         for(unsigned int i=0;i<s2->ndim; i++){
           snew->extents[i] = &snew->extents[0][2*i];
@@ -234,13 +239,15 @@ public:
           snew->get_coefficients()[i]=2*c2-c1;
         }
 
-        return(snew);
+        return owner;
       };
 
-      tables.insert(tables.begin(),extrapolateSpline(tables[1],tables[0]));
+      lowerPadding=extrapolateSpline(tables[1],tables[0]);
+      tables.insert(tables.begin(),lowerPadding.get());
       coordinates.insert(coordinates.begin(),2*coordinates[0]-coordinates[1]);
 
-      tables.push_back(extrapolateSpline(tables[tables.size()-2],tables[tables.size()-1]));
+      upperPadding=extrapolateSpline(tables[tables.size()-2],tables[tables.size()-1]);
+      tables.push_back(upperPadding.get());
       coordinates.push_back(2*coordinates[coordinates.size()-1]-coordinates[coordinates.size()-2]);
     }
 
